@@ -24,11 +24,13 @@ class Model:
     def __init__(self, nslots, bufs):
         self.slots = [None] * nslots
         self.bufs = [list(b) for b in bufs]
+        self.kernel = None
         self.dirty = set()      # external buffers whose contents are unspecified (an rvalue bound to them was consumed)
 
     def clone(self):
         m = Model(len(self.slots), self.bufs)
         m.dirty = set(self.dirty)
+        m.kernel = self.kernel
         m.slots = [None if s is None else dict(s, vals=(list(s['vals']) if s.get('vals') is not None else None)) for s in self.slots]
         return m
 
@@ -63,6 +65,8 @@ class Model:
         move from, a vector that was consumed while bound to user storage (the property only promises re-usability of
         consumed *self-owned* sources)."""
         op = ins.op
+        if op == OPS['GEXPR']:
+            return self.apply(Ins('EXPR', t=ins.t, s1=ins.s1, s2=ins.s2, x=(ins.x // 1024) * 32 + ins.x % 32, c=ins.c, ext=ins.ext))
         S = self.slots
         own = lambda d, vals: {'bind': 'own', 'dim': d, 'vals': list(vals)}
         writes_t = op in (OPS['COPYASSIGN'], OPS['MOVEASSIGN'], OPS['FILL'], OPS['PLAININC'], OPS['PLAINDEC'], OPS['SETBACKING']) or (op == OPS['EXPR'] and ins.x // 32 != 3)
@@ -169,6 +173,9 @@ class Model:
                 r = [T.fmul(x, y) for x, y in zip(a, b)]
             elif e == 20:
                 r = [T.fadd(T.fmul(x, y), x) for x, y in zip(a, b)]
+            elif e in (12, 13, 14, 15) and self.kernel is not None:
+                # non-element-wise operations: the value of op(a,b) evaluated into a fresh temporary (twin execution of the real kernel)
+                r = self.kernel(e, d1, a, b if e in ARITY2 else None, c, list(self.bufs[ins.ext][:d1 * (d1 - 1)]) if e == 15 else None)
             else:
                 raise NotImplementedError('model: expression %d' % e)
             # an element-wise expression may hand the storage of an rvalue operand to its destination; if that operand was bound to
